@@ -161,11 +161,13 @@ func caseVariant(ext string, k int) string {
 
 var cliOnce sync.Once
 var cliPath string
+var cliDir string // removed when the process ends (main)
 
 // cliBinary builds the command-line tool from /repo's working tree once per process
 func cliBinary() string {
 	cliOnce.Do(func() {
 		dir, _ := ioutil.TempDir("", "verif-cli-")
+		cliDir = dir
 		out := filepath.Join(dir, "astisub")
 		cmd := exec.Command("go", "build", "-o", out, "./astisub")
 		cmd.Dir = "/repo"
